@@ -52,6 +52,11 @@ def run(F, R):
     s1_selector(F, R, roles, h12, h10)
     s10_packet_view(F, R, roles, h12, h10)
     s13_send_always_submits(F, R, M, roles)
+    # S14: one used buffer = one frame rests on mergeable receive buffers not being negotiated: the net driver's supported set does
+    # not contain MRG_RXBUF (it never reads num_buffers) - C08.H2
+    from .C08 import h2_supported
+    _ct = [b_ for b_ in F.bodies.values() if b_.get('impl_adt') == RAW and F.handwritten(b_) and any(bl['term']['k'] == 'call' and bl['term'].get('method') == 'begin_init' for bl in b_['blocks'])]
+    guard(R, 'S14', 'supported-set', lambda: h2_supported(F, RuleProxy(R, {'H2': 'S14'}, only=lambda inst: inst.endswith(':MRG_RXBUF')), _ct))
     # S11: the selector's value: the legacy-header flag is (not VERSION_1 and not MRG_RXBUF) of the negotiated set, whatever the
     # transport's queue layout (C08.H5) - otherwise both directions use a header of the wrong size
     from .C08 import h5_net
